@@ -12,6 +12,18 @@ COMMON_NOTE = (
 )
 
 CHECKS = {
+    "C05": dict(
+        technique="explicit-state breadth-first crawl of the implementation: states = (protocol, advertised link), transitions = local links parsed out of each real listing by independent parsers, over a bounded-exhaustive names x kinds content tree",
+        text="A tree holding every name of a 30-name alphabet (spaces, reserved URL characters, quotes, markup characters, non-UTF-8 bytes, leading blank; TAB/LF/trailing blank for URL-based protocols) as every kind of object, plus all directory x child pairs, "
+             "is crawled from the root menu through 8 protocol forms under both handler lists, following every local link exactly as advertised; each must be answered with success and with a menu iff advertised as one.",
+        design_ref="DESIGN.md 3/C05",
+    ),
+    "C06": dict(
+        technique="bounded-exhaustive enumeration of directories x protocol views x abstract settings with a cross-protocol differential on independently parsed listings; bounded-exhaustive enumeration of search strings through every protocol's submission mechanism",
+        text="Every directory of the names tree (plus link files, .cap, abstracts and a gophermap with remote/URL/search entries) is listed through 9 protocol forms under handler lists x abstract_entries x abstract_headers and the parsed (is-info, name, target) sequences must all agree; "
+             "selectors answer the same with and without a trailing slash; every selector has one MIME type across protocols; every search string of <=3 characters over a 14-character alphabet reaches a PYG handler and a script's environment unchanged through 8 mechanisms.",
+        design_ref="DESIGN.md 3/C06",
+    ),
     "C07": dict(
         technique="bounded-exhaustive enumeration of directory contents x exhaustive enumeration of all permutations of the OS directory enumeration order (seam at VFS listdir), against a reference visible-set",
         text="Every subset of <=3 (quick) / <=4 (thorough) names of a pool that sits on both sides of every alternative of the shipped ignore pattern (plus dot-files, directories, extension ties) is listed by both directory handlers under ALL permutations of the enumeration order; "
